@@ -49,17 +49,14 @@ func ApplyChange(ctx context.Context, ds ipld.DAGService, nd *dag.ProtoNode, cs 
 	for _, c := range cs {
 		switch c.Type {
 		case Add:
+			// the inserted node may be of any codec (e.g. a raw leaf): only the
+			// nodes on the path to it have to be ProtoNodes
 			child, err := ds.Get(ctx, c.After)
 			if err != nil {
 				return nil, err
 			}
 
-			childpb, ok := child.(*dag.ProtoNode)
-			if !ok {
-				return nil, dag.ErrNotProtobuf
-			}
-
-			err = e.InsertNodeAtPath(ctx, c.Path, childpb, nil)
+			err = e.InsertNodeAtPath(ctx, c.Path, child, nil)
 			if err != nil {
 				return nil, err
 			}
@@ -80,12 +77,7 @@ func ApplyChange(ctx context.Context, ds ipld.DAGService, nd *dag.ProtoNode, cs 
 				return nil, err
 			}
 
-			childpb, ok := child.(*dag.ProtoNode)
-			if !ok {
-				return nil, dag.ErrNotProtobuf
-			}
-
-			err = e.InsertNodeAtPath(ctx, c.Path, childpb, nil)
+			err = e.InsertNodeAtPath(ctx, c.Path, child, nil)
 			if err != nil {
 				return nil, err
 			}
